@@ -19,10 +19,11 @@ pub enum ElemKind {
     Zst,
     Nested,
     Big,
+    F64,
 }
 
 impl ElemKind {
-    pub const ALL: [ElemKind; 7] = [ElemKind::U8, ElemKind::U64, ElemKind::Str, ElemKind::T24, ElemKind::Zst, ElemKind::Nested, ElemKind::Big];
+    pub const ALL: [ElemKind; 8] = [ElemKind::U8, ElemKind::U64, ElemKind::Str, ElemKind::T24, ElemKind::Zst, ElemKind::Nested, ElemKind::Big, ElemKind::F64];
     pub fn tyname(self) -> &'static str {
         match self {
             ElemKind::U8 => "u8",
@@ -32,6 +33,7 @@ impl ElemKind {
             ElemKind::Zst => "Zst",
             ElemKind::Nested => "List[u64]",
             ElemKind::Big => "Big",
+            ElemKind::F64 => "f64",
         }
     }
     pub fn suffix(self) -> &'static str {
@@ -43,6 +45,7 @@ impl ElemKind {
             ElemKind::Zst => "zst",
             ElemKind::Nested => "nest",
             ElemKind::Big => "big",
+            ElemKind::F64 => "f64",
         }
     }
 }
@@ -85,6 +88,25 @@ impl Elem for u64 {
     }
     fn debug(&self) -> String {
         format!("{self}")
+    }
+}
+
+impl Elem for f64 {
+    const KIND: ElemKind = ElemKind::F64;
+    fn from_m(v: &MVal, _: &Inner) -> Self {
+        match v {
+            MVal::F(b) => f64::from_bits(*b),
+            _ => 0.0,
+        }
+    }
+    fn to_m(&self, _: &mut Inner) -> Result<MVal, String> {
+        if alloc::is_poison_u64(self.to_bits()) {
+            return Err(format!("f64 element with bit pattern {:#x} is a poison word", self.to_bits()));
+        }
+        Ok(MVal::F(self.to_bits()))
+    }
+    fn debug(&self) -> String {
+        format!("{self:?}")
     }
 }
 
@@ -224,6 +246,7 @@ where
     pub ne: F<fn(List<E>, List<E>) -> bool>,
     pub lit3: F<fn(E, E, E) -> List<E>>,
     pub lit9: F<fn(E, E, E) -> List<E>>,
+    pub tmpget: F<fn(u64, E, E) -> Option<E>>,
     pub branchlit: F<fn(bool, E, E) -> List<E>>,
     pub twolit: F<fn(bool, E, E) -> List<E>>,
     pub count: F<fn(List<E>) -> u64>,
@@ -253,6 +276,7 @@ fn eq_{x}(a: List[{ty}], b: List[{ty}]) -> bool {{ a == b }}
 fn ne_{x}(a: List[{ty}], b: List[{ty}]) -> bool {{ a != b }}
 fn lit3_{x}(a: {ty}, b: {ty}, c: {ty}) -> List[{ty}] {{ [a, b, c] }}
 fn lit9_{x}(a: {ty}, b: {ty}, c: {ty}) -> List[{ty}] {{ [a, b, c, a, b, c, a, b, c] }}
+fn tmpget_{x}(i: u64, a: {ty}, b: {ty}) -> {ty}? {{ [a, b].get(i) }}
 fn branchlit_{x}(c: bool, a: {ty}, b: {ty}) -> List[{ty}] {{ if c {{ [a, b] }} else {{ [b, a] }} }}
 fn twolit_{x}(c: bool, a: {ty}, b: {ty}) -> List[{ty}] {{
     if c {{
@@ -335,6 +359,7 @@ where
             ne: g!("ne"),
             lit3: g!("lit3"),
             lit9: g!("lit9"),
+            tmpget: g!("tmpget"),
             branchlit: g!("branchlit"),
             twolit: g!("twolit"),
             count: g!("count"),
@@ -355,6 +380,7 @@ pub struct Warm {
     pub zst: Arc<Fns<Val<Zst>>>,
     pub nest: Arc<Fns<List<u64>>>,
     pub big: Arc<Fns<Val<Big>>>,
+    pub f64: Arc<Fns<f64>>,
     pub sum_u64: F<fn(List<u64>) -> u64>,
     pub join_str: F<fn(List<RotoString>, RotoString) -> RotoString>,
 }
@@ -382,6 +408,7 @@ pub fn warm() -> Warm {
         zst: Arc::new(Fns::load(&mut pkg)),
         nest: Arc::new(Fns::load(&mut pkg)),
         big: Arc::new(Fns::load(&mut pkg)),
+        f64: Arc::new(Fns::load(&mut pkg)),
         sum_u64: pkg.get_function("sum_u64").expect("sum_u64"),
         join_str: pkg.get_function("join_str").expect("join_str"),
         _rt: rt,
@@ -418,6 +445,11 @@ impl WarmSel for Val<T24> {
 impl WarmSel for Val<Zst> {
     fn fns(w: &Warm) -> Arc<Fns<Self>> {
         w.zst.clone()
+    }
+}
+impl WarmSel for f64 {
+    fn fns(w: &Warm) -> Arc<Fns<Self>> {
+        w.f64.clone()
     }
 }
 impl WarmSel for Val<Big> {
@@ -518,6 +550,29 @@ where
                 self.slots[*dst] = Some(l);
                 Obs::Unit
             }
+            Op::TmpGet { vals, i } => {
+                let a = E::from_m(&vals[0], &self.inner);
+                let b = E::from_m(&vals[1], &self.inner);
+                // (zero-sized parameters come last: observation O3 in DESIGN.md)
+                let r = f.tmpget.call(*i, a, b);
+                self.one(r, "get on a temporary list")
+            }
+            Op::IterWithPush { h, k, v } => match self.h(*h) {
+                Some(l) => {
+                    let mut it = l.clone().into_iter();
+                    let mut out: Vec<E> = Vec::new();
+                    for _ in 0..*k {
+                        match it.next() {
+                            Some(x) => out.push(x),
+                            None => break,
+                        }
+                    }
+                    l.push(E::from_m(v, &self.inner));
+                    out.extend(it);
+                    Obs::Vals(vals_to_m(out, &mut self.inner, "into_iter with a push in between"))
+                }
+                None => Obs::Skipped,
+            },
             Op::BranchLit { dst, c, vals, shape } => {
                 let a = E::from_m(&vals[0], &self.inner);
                 let b = E::from_m(&vals[1], &self.inner);
